@@ -194,11 +194,23 @@ Section Conn.
   Definition ready (client : bool) (a : A) : conn :=
     mkConn (mkSt client false true [] 0 false false a) [] false.
 
+  (* a connection right after connectionMade: handshake not yet started, nothing
+     buffered, _receivedFDs = [].  Descriptors may arrive from now on: the line
+     phase of dataReceived never touches the queue, setAuthenticationSucceeded
+     keeps it *)
+  Definition fresh (client : bool) (a : A) : conn := mkConn (init client a) [] false.
+
   (* what is observable at the end: callbacks in order, the queue, the bytes
      not yet framed (None once the connection is closing / dropped) *)
   Definition run_fd (client : bool) (a : A) (ins : list input)
     : list out * list pyval * option bytes :=
     let '(c, o) := run_conn (ready client a) ins in
+    (o, c_q c, if c_dead c then None else residual (c_st c)).
+
+  (* the same from the start of the connection (handshake included) *)
+  Definition run_start (client : bool) (a : A) (ins : list input)
+    : list out * list pyval * option bytes :=
+    let '(c, o) := run_conn (fresh client a) ins in
     (o, c_q c, if c_dead c then None else residual (c_st c)).
 End Conn.
 
